@@ -900,7 +900,7 @@ def op_save(sim: Sim, a) -> str:
     plan = None
     if fault:
         errno_ = errno.EIO if fault.get("err") == "EIO" else errno.ENOSPC
-        plan = WritePlan(fault["kind"], _budget_for(sim, fault), errno_, int(fault.get("lost", 0)))
+        plan = WritePlan(fault["kind"], _budget_for(sim, fault), errno_, int(fault.get("lost", 0)), bool(fault.get("transient")))
     world.begin_save(plan)
     outcome = None
     try:
